@@ -18,6 +18,10 @@ def Tok.pos (t : Tok) : Pos := (t.dl, t.dc)
 is an insertion sort below 21 elements) -/
 def sortToks (ts : List Tok) : List Tok := ts.mergeSort (fun a b => posLe (Tok.pos a) (Tok.pos b))
 
+/-- tokens ordered by generated position -/
+def SortedByPos (ts : List Tok) : Prop :=
+  List.Pairwise (fun a b => posLe (Tok.pos a) (Tok.pos b) = true) ts
+
 /-- std `slice::binary_search_by` (Rust 1.95): `size` halves until 1, `base` moves right while the
 probe is not Greater.  Returns `(found, index)`. -/
 def bsearchLoop (keys : List Pos) (q : Pos) : Nat → Nat → Nat → Nat
